@@ -68,6 +68,13 @@ func c17Grid(full bool) []dtStr {
 			}
 		}
 	}
+	// equal instants with different offsets (time-with-zone tie-break by offset)
+	for _, s := range []string{"12:34:56+01", "11:34:56Z", "13:34:56+02:00", "06:04:56-05:30", "11:34:56+00:00", "00:04:56+12:30", "23:34:56-12:00"} {
+		out = append(out, dtStr{s, "timetz"})
+	}
+	for _, s := range []string{"2023-08-15T12:34:56+01:00", "2023-08-15T11:34:56Z", "2023-08-15T17:04:56+05:30", "2023-08-14T23:34:56-12:00"} {
+		out = append(out, dtStr{s, "timestamptz"})
+	}
 	// non-datetime inputs
 	for _, s := range []string{"", "abc", "2023-13-01", "2023-02-30", "24:00:00", "12:60:00", "12:34:60", "2023-08-15T", "2023-08-15 12:34", "12:34", "2023-8-15", "2023-08-15T12:34:56+1", "2023-08-15T12:34:56 +01", "15/08/2023", "12:34:56+25"} {
 		out = append(out, dtStr{s, "bad"})
